@@ -348,3 +348,20 @@ Section Walk.
       rewrite (Ht _ c2 r2 E2). reflexivity.
   Qed.
 End Walk.
+
+(* a decidable form of total_chain, for examples and for the harness *)
+Fixpoint total_chainb (l : list cand) : bool :=
+  match l with
+  | [] => true
+  | c :: suf => (match grp [c] suf with [] => true | _ => false end) && total_chainb suf
+  end.
+
+Lemma total_chainb_spec l : total_chainb l = true -> total_chain l.
+Proof.
+  induction l as [|a r IH]; intros H pre c suf E.
+  - destruct pre; discriminate.
+  - simpl in H. apply andb_true_iff in H. destruct H as [Ha Hr].
+    destruct pre as [|p pre]; simpl in E; injection E as -> ->.
+    + destruct (grp [c] suf); [reflexivity|discriminate].
+    + apply (IH Hr pre c suf eq_refl).
+Qed.
